@@ -10,6 +10,7 @@ mod round4;
 mod round5;
 mod round6;
 mod round7;
+mod round8;
 mod alloc;
 mod cases;
 mod exec;
@@ -335,6 +336,8 @@ fn cases_for(prop: &str, tier: &str, seed: u64, out: &mut Out) {
                 out.verdict(&id, "scenario big-index-routes 1500", round5::oracle_big_index_routes(1500));
                 let id = out.oracle_only_id();
                 out.verdict(&id, "scenario path-uppercase", round6::oracle_path_uppercase());
+                let id = out.oracle_only_id();
+                out.verdict(&id, "scenario nth-after-failed-nth", round8::oracle_nth_after_failed_nth());
                 for (which, room, offered) in [("shx", 3usize, 5usize), ("shp", 2, 4), ("shx", 1, 2), ("shp", 4, 4)] {
                     let id = out.oracle_only_id();
                     out.verdict(&id, &format!("scenario failed-write-then-finalize {} {} {}", which, room, offered), round7::oracle_failed_write_then_finalize(which, room, offered));
@@ -382,6 +385,25 @@ fn cases_for(prop: &str, tier: &str, seed: u64, out: &mut Out) {
                 }
             }
             if prop == "C05" {
+                // parts longer than any block a fold could be cut into, the extreme in the last vertices
+                for (fam, d) in ALL13.iter().filter(|(f, _)| *f != "point") {
+                    for n in [1025usize, 1027, 1030, 2051] {
+                        let mut ps: Vec<P> = (0..n).map(|i| P { x: ((i % 100) as f64).to_bits(), y: ((i % 50) as f64).to_bits(), z: ((i % 7) as f64).to_bits(), m: ((i % 9) as f64 + 1.0).to_bits() }).collect();
+                        ps[n - 1] = P { x: 500.0f64.to_bits(), y: 600.0f64.to_bits(), z: 700.0f64.to_bits(), m: 800.0f64.to_bits() };
+                        ps[n - 2] = P { x: (-500.0f64).to_bits(), y: (-600.0f64).to_bits(), z: (-700.0f64).to_bits(), m: 0.5f64.to_bits() };
+                        let c = match *fam {
+                            "multipoint" => Ctor::Multipoint(*d, ps),
+                            "polyline" => Ctor::PolylineParts(*d, vec![ps.clone(), ps[..3].to_vec()]),
+                            "polygon" => Ctor::PolygonRings(*d, vec![(Role::Outer, ps)]),
+                            _ => Ctor::MultipatchParts(vec![(Kind::Strip, ps.clone()), (Kind::Ring, ps[..4].to_vec())]),
+                        };
+                        stats.hit("shape.long-part-extreme-last");
+                        run_and_judge(out, &Case::Construct(c.clone()));
+                        run_and_judge(out, &Case::Write { shx: true, ctors: vec![c] });
+                    }
+                }
+            }
+            if prop == "C05" {
                 // the header box after a write that FAILED, and after a finalize that failed and was retried
                 for (which, room, offered) in [("shp", 2usize, 4usize), ("shx", 3, 5), ("shp", 1, 3)] {
                     let id = out.oracle_only_id();
@@ -401,6 +423,10 @@ fn cases_for(prop: &str, tier: &str, seed: u64, out: &mut Out) {
             if prop == "C13" {
                 let id = out.oracle_only_id();
                 out.verdict(&id, "scenario reverse-truncated", round7::oracle_reverse_truncated());
+                for (code, nparts) in [(8i32, 0usize), (18, 0), (28, 0), (13, 0), (15, 2), (31, 1), (23, 1)] {
+                    let id = out.oracle_only_id();
+                    out.verdict(&id, &format!("scenario truncated-empty-shapes {} {}", code, nparts), round8::oracle_truncated_empty_shapes(code, nparts));
+                }
                 let id = out.oracle_only_id();
                 out.verdict(&id, "scenario gap-faults", round5::oracle_gap_faults());
                 let id = out.oracle_only_id();
@@ -492,6 +518,18 @@ fn cases_for(prop: &str, tier: &str, seed: u64, out: &mut Out) {
                 let f = round5::strip_record_tail(&shp, 8);
                 for req in TYPE_NAMES {
                     run_and_judge(out, &Case::Read { target: req.to_string(), shp: f.clone(), shx: None });
+                }
+            }
+            // single points whose measure is a no-data marker other than the constant itself
+            for d in [Dim::Xym, Dim::Xyzm] {
+                for m in [f64::MIN.to_bits(), (-2e39f64).to_bits(), next_down(NO_DATA_BITS), NO_DATA_BITS, next_up(NO_DATA_BITS), 0x7ff8_0000_0000_0000u64, f64::NEG_INFINITY.to_bits()] {
+                    let c = Ctor::Point(d, P { x: 1.0f64.to_bits(), y: 2.0f64.to_bits(), z: 3.0f64.to_bits(), m });
+                    stats.hit("typed.point-special-measure");
+                    run_and_judge(out, &Case::Construct(c.clone()));
+                    let (shp, _) = write_files(false, &[build(&c).unwrap()]);
+                    for req in TYPE_NAMES {
+                        run_and_judge(out, &Case::Read { target: req.to_string(), shp: shp.clone(), shx: None });
+                    }
                 }
             }
             // records that hold no vertex at all: typed and generic reads agree on what they are
@@ -650,6 +688,10 @@ fn cases_for(prop: &str, tier: &str, seed: u64, out: &mut Out) {
                     out.verdict(&id, &format!("scenario collect-peak {}", words), round4::oracle_collect_peak(words));
                 }
                 {
+                    for words in [600_000_000i32, i32::MAX, 1 << 24] {
+                        let id = out.oracle_only_id();
+                        out.verdict(&id, &format!("scenario path-hostile-index {}", words), round8::oracle_path_hostile_index(words));
+                    }
                     let id = out.oracle_only_id();
                     out.verdict(&id, "scenario sparse-record-numbers", round7::oracle_sparse_record_numbers());
                     let id = out.oracle_only_id();
@@ -699,6 +741,10 @@ fn cases_for(prop: &str, tier: &str, seed: u64, out: &mut Out) {
         "C15" => {
             extra::cases_rhist(tier, &mut rng, &mut stats, out);
             extra::cases_pairs_c15(tier, &mut stats, out);
+            {
+                let id = out.oracle_only_id();
+                out.verdict(&id, "scenario nth-after-failed-nth", round8::oracle_nth_after_failed_nth());
+            }
             for n in [6usize, 2] {
                 let id = out.oracle_only_id();
                 out.verdict(&id, &format!("scenario iter-adaptors {}", n), round5::oracle_iter_adaptors(n));
